@@ -352,5 +352,122 @@ theorem otherStep (m k : Nat) (hk : k ≠ m) (ev : Event) (hev : ev ≠ .signal)
     · exact ⟨fun _ _ h => (by cases h), rfl, isSigTrans_ev k ev _ hev⟩
     · exact ok_neutral hk e (hokT e he')
 
+/-! ### the three completion events -/
+
+/-- `b` extends the log of `a` by a segment without Signal deliveries that satisfies the
+    single-completion rule for `m` (started in state `cur`) -/
+def EvSeg (m cur : Nat) (a b : Fw σ) : Prop :=
+  b.fault = none → a.fault = none ∧ ∃ c : List LogEntry, b.log = c.reverse ++ a.log ∧ RuleC m cur c ∧
+    ∀ e ∈ c, isSigTrans e = false
+
+theorem EvSeg.src {m cur : Nat} {a a1 b : Fw σ} (hf : a1.fault = a.fault) (hl : a1.log = a.log)
+    (h : EvSeg m cur a1 b) : EvSeg m cur a b := by
+  intro hb
+  obtain ⟨h0, c, hc1, hc2⟩ := h hb
+  exact ⟨by rw [← hf]; exact h0, c, by rw [← hl]; exact hc1, hc2⟩
+
+theorem pe_timerBegin (m : Nat) (a : Fw σ) (r : Runtime) (hr : a.rt[m]? = some r) (hne : r.currentState ≠ STATE_END) :
+    EvSeg m r.currentState a (processEvent ρ (.timerBegin m) a) := by
+  have hlt : ¬ m ≥ a.rt.length := by
+    intro h; rw [List.getElem?_eq_none h] at hr; cases hr
+  unfold processEvent
+  simp only [hlt, if_false]
+  intro hb
+  exact selfStep ρ m .timerBegin (by decide) a r hr hne
+    (!(transition ρ FUEL m .timerBegin a).2 && notEnded (transition ρ FUEL m .timerBegin a).1 m) rfl hb
+
+theorem pe_paddingSent (m : Nat) (a : Fw σ) (r : Runtime) (hr : a.rt[m]? = some r) (hne : r.currentState ≠ STATE_END) :
+    EvSeg m r.currentState a (processEvent ρ (.paddingSent m) a) := by
+  have hlt : ¬ m ≥ a.rt.length := by
+    intro h; rw [List.getElem?_eq_none h] at hr; cases hr
+  unfold processEvent
+  simp only [hlt, if_false]
+  have hr1 : ({ a with g := { a.g with paddingSent := a.g.paddingSent + 1 } } : Fw σ).rt[m]? = some r := hr
+  generalize hA : (({ a with g := { a.g with paddingSent := a.g.paddingSent + 1 } } : Fw σ).modRt m
+    (fun r => { r with acct := { r.acct with paddingSent := r.acct.paddingSent + 1 } })) = a2
+  have hr2 : a2.rt[m]? = some { r with acct := { r.acct with paddingSent := r.acct.paddingSent + 1 } } := by
+    subst hA; rw [Fw.modRt_rt_self, hr1]; rfl
+  have hf2 : a2.fault = a.fault := by subst hA; exact Countdown.modRt_fault_some _ _ _ r hr1
+  have hl2 : a2.log = a.log := by subst hA; simp
+  intro hb
+  have := selfStep ρ m .paddingSent (by decide) a2 _ hr2 hne
+    (!(transition ρ FUEL m .paddingSent a2).2 && notEnded (transition ρ FUEL m .paddingSent a2).1 m) rfl hb
+  rw [hf2, hl2] at this
+  exact this
+
+theorem pe_blockingBegin (m : Nat) (a : Fw σ) (r : Runtime) (hr : a.rt[m]? = some r) (hne : r.currentState ≠ STATE_END) :
+    EvSeg m r.currentState a (processEvent ρ (.blockingBegin m) a) := by
+  have hlt : m < a.rt.length := by
+    rcases Nat.lt_or_ge m a.rt.length with h | h
+    · exact h
+    · rw [List.getElem?_eq_none h] at hr; cases hr
+  unfold processEvent
+  simp only []
+  generalize hA : (if (!a.g.blockingActive) = true then
+      ({ a with g := { a.g with blockingActive := true, blockingStarted := a.g.now } } : Fw σ) else a) = a1
+  have hr1 : a1.rt = a.rt := by subst hA; split <;> rfl
+  have hf1 : a1.fault = a.fault := by subst hA; split <;> rfl
+  have hl1 : a1.log = a.log := by subst hA; split <;> rfl
+  refine EvSeg.src hf1 hl1 ?_
+  have hrm : a1.rt[m]? = some r := by rw [hr1]; exact hr
+  clear hA
+  let F : Fw σ → Nat → Fw σ := fun s k =>
+    if (fun p : Fw σ × Bool => !p.2 && notEnded p.1 k && k == m) (transition ρ FUEL k .blockingBegin s) = true
+    then decrementLimit ρ k (transition ρ FUEL k .blockingBegin s).1 else (transition ρ FUEL k .blockingBegin s).1
+  have hother : ∀ s k, k ≠ m → F s k = (transition ρ FUEL k .blockingBegin s).1 := by
+    intro s k hk
+    simp only [F]
+    split
+    · next h => simp [hk] at h
+    · rfl
+  let Pre : Fw σ → Prop := fun x => x.fault = none → a1.fault = none ∧ ∃ c : List LogEntry,
+    x.log = c.reverse ++ a1.log ∧ (∀ e ∈ c, neutral m e) ∧ x.rt[m]? = a1.rt[m]?
+  have main := Countdown.fold_visit_once (Pre := Pre) (Post := EvSeg m r.currentState a1) F m
+    (fun s k hk hs => by
+      show Pre (F s k)
+      rw [hother s k hk]
+      intro hx
+      obtain ⟨hsf, c2, hl2, hn2, hrt2⟩ := otherStep ρ m k hk .blockingBegin (by decide) s hx
+      obtain ⟨h0, c1, hl1', hn1, hrt1⟩ := hs hsf
+      refine ⟨h0, c1 ++ c2, by rw [hl2, hl1', List.reverse_append, List.append_assoc], fun e he => ?_, hrt2.trans hrt1⟩
+      rcases List.mem_append.1 he with h | h
+      · exact hn1 e h
+      · exact hn2 e h)
+    (fun s k hk hs => by
+      show EvSeg m r.currentState a1 (F s k)
+      rw [hother s k hk]
+      intro hx
+      obtain ⟨hsf, c2, hl2, hn2, _⟩ := otherStep ρ m k hk .blockingBegin (by decide) s hx
+      obtain ⟨h0, c1, hl1', hc1, hs1⟩ := hs hsf
+      refine ⟨h0, c1 ++ c2, by rw [hl2, hl1', List.reverse_append, List.append_assoc], hc1.right hn2, fun e he => ?_⟩
+      rcases List.mem_append.1 he with h | h
+      · exact hs1 e h
+      · exact (hn2 e h).2.2)
+    (fun s hs => by
+      show EvSeg m r.currentState a1 (F s m)
+      intro hx
+      have hsf : s.fault = none := by
+        have h1 : (transition ρ FUEL m .blockingBegin s).1.fault = none := by
+          by_cases hc : (fun p : Fw σ × Bool => !p.2 && notEnded p.1 m && m == m) (transition ρ FUEL m .blockingBegin s) = true
+          · simp only [F, hc, if_true] at hx
+            exact reach_fault_mono (decrementLimit_reach ρ m _) hx
+          · simp only [F, hc, if_false] at hx
+            exact hx
+        exact reach_fault_mono (transition_reach ρ FUEL m .blockingBegin s) h1
+      obtain ⟨h0, c1, hl1', hn1, hrt1⟩ := hs hsf
+      have hrs : s.rt[m]? = some r := by rw [hrt1]; exact hrm
+      obtain ⟨_, c2, hl2, hc2, hs2⟩ := selfStep ρ m .blockingBegin (by decide) s r hrs hne
+        (!(transition ρ FUEL m .blockingBegin s).2 && notEnded (transition ρ FUEL m .blockingBegin s).1 m)
+        rfl (by simpa [F] using hx)
+      refine ⟨h0, c1 ++ c2, ?_, hc2.left hn1, fun e he => ?_⟩
+      · have : (F s m).log = c2.reverse ++ s.log := by simpa [F] using hl2
+        rw [this, hl1', List.reverse_append, List.append_assoc]
+      · rcases List.mem_append.1 he with h | h
+        · exact (hn1 e h).2.2
+        · exact hs2 e h)
+    (List.range a1.rt.length) List.nodup_range (by rw [List.mem_range, hr1]; exact hlt) a1
+    (fun h => ⟨h, [], rfl, by simp, rfl⟩)
+  exact main
+
 end LL
 end Mb
